@@ -134,7 +134,9 @@ def _open(file, *a, **k):
 # ---------------------------------------------------------------------------
 def poison_array(arr):
     k = arr.dtype.kind
-    if k in 'fc':
+    if k == 'c':
+        arr.fill(complex(np.nan, np.nan))
+    elif k == 'f':
         arr.fill(np.nan)
     elif k in 'iu':
         info = np.iinfo(arr.dtype)
